@@ -188,18 +188,14 @@ int cif_loop_set_category(cif_loop_tp *loop, const UChar *category) {
             }
         }
 
-        if (category == NULL) {
-            category_temp = NULL;
-        } else {
-            category_temp = cif_u_strdup(category);
-            if (category_temp == NULL) {
-                return CIF_MEMORY_ERROR;
-            }
-        }
     }
 
     if (container == NULL) {
         /* an unattached loop, such as may be synthesized temporarily during CIF parsing */
+        category_temp = cif_u_strdup(category);
+        if ((category != NULL) && (category_temp == NULL)) {
+            return CIF_MEMORY_ERROR;
+        }
         if (loop->category != NULL) {
             free(loop->category);
         }
@@ -220,6 +216,12 @@ int cif_loop_set_category(cif_loop_tp *loop, const UChar *category) {
              * for re-use, exiting this function with an error on failure.
              */
             PREPARE_STMT(cif, set_loop_category, SET_CATEGORY_SQL);
+
+            /* the copy is made only now, because preparing the statement exits the function on failure */
+            category_temp = cif_u_strdup(category);
+            if ((category != NULL) && (category_temp == NULL)) {
+                return CIF_MEMORY_ERROR;
+            }
 
             /* set the category */
             if ((sqlite3_bind_int64(cif->set_loop_category_stmt, 2, container->id) == SQLITE_OK)
